@@ -9,7 +9,7 @@ git checkout -q -- . ; rm -f $crate/tests/$(basename $demo)
 export CARGO_NET_OFFLINE=true
 git apply $S/patch.diff || { echo "patch does not apply"; exit 2; }
 suite=$(cargo test --workspace --no-fail-fast --offline 2>&1 | grep -E "^test result" | awk '{p+=$4; f+=$6} END {print p" passed, "f" failed"}')
-cp $S/$demo $crate/tests/
+mkdir -p $crate/tests; cp $S/$demo $crate/tests/
 with=$(cargo test -p $crate --test $tname --offline 2>&1 | grep -E "^test result|panicked" | head -3 | tr '\n' ' ')
 git apply -R $S/patch.diff
 without=$(cargo test -p $crate --test $tname --offline 2>&1 | grep -E "^test result" | head -2 | tr '\n' ' ')
